@@ -631,4 +631,6 @@ func runC08(r *mon.Run) {
 		// which nonce was really used is not observable from (r,s,v) alone; the RFC 6979 mode of
 		// c08/sign covers the four classes with a known nonce.
 	})
+	// results that are functions of the arguments alone do not depend on the process-wide system entropy stream
+	runDegradedEntropy(r, "c08", r.N(40, 600), "rfc6979", "hedged")
 }
